@@ -18,7 +18,7 @@ from collections import Counter
 import numpy as np
 
 from cidersim import boot
-from cidersim.faultat import FaultAt, draw_fault
+from cidersim.faultat import FaultAt, draw_fault, for_op, remember  # noqa: F401
 from cidersim.prng import Digest, Rng, derive
 
 LEVEL = "exploration"
@@ -688,12 +688,13 @@ def exec_history(hist, workdir, collect=None, light=False):
     def interrupted(op, fn, *a, **k):
         """run fn under the op's injected failure; True if the failure fired (un-acknowledged
         call).  A failure point beyond the end of the call means the call simply completed."""
-        inj = FaultAt(op.get("fault"))
+        inj = for_op(op)
         try:
             with inj:
                 _quiet(fn, *a, **k)
         except Exception as e:
             if inj.fired:
+                remember(op, inj)
                 stats["calls_interrupted_by_injected_failure"] += 1
                 stats["fault_site_" + inj.where] += 1
                 return True
